@@ -16,7 +16,8 @@ DEFAULTS = {
     'path_default': '/',
     'name_reg_sep': ':',
 }
-NUM_DEFAULTS = {'compile_extra_args': 0, 'module_re_flags': 0, 'name_reg_maxsplit': 1, 'matcher_fresh_dict': 1}
+NUM_DEFAULTS = {'compile_extra_args': 0, 'module_re_flags': 0, 'name_reg_maxsplit': 1, 'matcher_fresh_dict': 1,
+                'matchdict_single_writer': 1}
 
 
 def _str(node):
@@ -189,6 +190,132 @@ def extract(src, problems):
     return vals, nums
 
 
+MUTATORS = {'update', 'pop', 'popitem', 'clear', 'setdefault', '__setitem__', '__delitem__', '__ior__'}
+READERS = {'get', 'items', 'keys', 'values', 'copy', '__getitem__', '__contains__'}
+# the only code of the package that may write to / hand on the LIVE match dictionary (modelled: traverse_fix; pinned)
+MATCHDICT_WRITERS = {('pyramid/predicates.py', 'TraversePredicate.__call__')}
+MATCHDICT_SKIP = ('pyramid/scaffolds', 'pyramid/scripts', 'pyramid/testing.py')
+
+
+def _is_md_expr(n, aliases):
+    """does the expression denote the live match dictionary? (X.matchdict, X['match'], X.get('match'), an alias)"""
+    if isinstance(n, ast.Name):
+        return n.id in aliases
+    if isinstance(n, ast.Attribute):
+        return n.attr == 'matchdict'
+    if isinstance(n, ast.Subscript):
+        return isinstance(n.slice, ast.Constant) and n.slice.value in ('match', 'matchdict', 'bfg.routes.matchdict')
+    if isinstance(n, ast.Call) and isinstance(n.func, ast.Attribute) and n.func.attr == 'get' and n.args:
+        return isinstance(n.args[0], ast.Constant) and n.args[0].value in ('match', 'matchdict')
+    return False
+
+
+def matchdict_sites(src):
+    """Every function of the package in which the dictionary the route matcher produced (request.matchdict /
+    info['match']) is WRITTEN (item store / delete, mutating method, augmented assignment) or ESCAPES (passed on as an
+    argument, stored in a container, returned, yielded) -- fail-closed: anything that is not a plain read counts."""
+    out = {}
+    root = os.path.join(src, 'pyramid')
+    for dp, dns, fns in os.walk(root):
+        for fn in sorted(fns):
+            if not fn.endswith('.py'):
+                continue
+            full = os.path.join(dp, fn)
+            rel = os.path.relpath(full, src)
+            if rel.startswith(MATCHDICT_SKIP):
+                continue
+            with open(full) as f:
+                tree = ast.parse(f.read())
+
+            def visit(node, qual):
+                for ch in ast.iter_child_nodes(node):
+                    if isinstance(ch, (ast.FunctionDef, ast.AsyncFunctionDef)):
+                        scan(ch, (qual + '.' if qual else '') + ch.name)
+                        visit(ch, (qual + '.' if qual else '') + ch.name)
+                    elif isinstance(ch, ast.ClassDef):
+                        visit(ch, (qual + '.' if qual else '') + ch.name)
+                    else:
+                        visit(ch, qual)
+
+            def scan(fdef, qual):
+                aliases = set(a.arg for a in fdef.args.args if a.arg == 'matchdict')
+                changed = True
+                while changed:
+                    changed = False
+                    for n in ast.walk(fdef):
+                        if isinstance(n, ast.Assign) and _is_md_expr(n.value, aliases):
+                            for tg in n.targets:
+                                for el in (tg.elts if isinstance(tg, ast.Tuple) else [tg]):
+                                    if isinstance(el, ast.Name) and el.id not in aliases:
+                                        aliases.add(el.id)
+                                        changed = True
+                        # match, route = info['match'], info['route']
+                        if isinstance(n, ast.Assign) and isinstance(n.value, ast.Tuple) and len(n.targets) == 1 \
+                                and isinstance(n.targets[0], ast.Tuple) and len(n.targets[0].elts) == len(n.value.elts):
+                            for el, v in zip(n.targets[0].elts, n.value.elts):
+                                if isinstance(el, ast.Name) and _is_md_expr(v, aliases) and el.id not in aliases:
+                                    aliases.add(el.id)
+                                    changed = True
+                why = []
+                parents = {}
+                for n in ast.walk(fdef):
+                    for ch in ast.iter_child_nodes(n):
+                        parents[id(ch)] = n
+                for n in ast.walk(fdef):
+                    if not _is_md_expr(n, aliases) or isinstance(getattr(n, 'ctx', None), (ast.Store, ast.Del)) and isinstance(n, ast.Name):
+                        continue
+                    par = parents.get(id(n))
+                    if isinstance(n, ast.Attribute) and n.attr == 'matchdict' and isinstance(n.ctx, (ast.Store, ast.Del)):
+                        continue        # (re)binding the attribute, not changing the dictionary
+                    if isinstance(n, ast.Subscript) and isinstance(n.ctx, (ast.Store, ast.Del)):
+                        continue        # info['match'] = ..: binding
+                    if isinstance(par, ast.Subscript) and par.value is n:
+                        if isinstance(par.ctx, (ast.Store, ast.Del)):
+                            why.append('item store/delete line %d' % par.lineno)
+                        continue
+                    if isinstance(par, ast.Attribute) and par.value is n:
+                        gp = parents.get(id(par))
+                        if isinstance(gp, ast.Call) and gp.func is par and par.attr in READERS:
+                            continue
+                        why.append('method/attribute .%s line %d' % (par.attr, par.lineno))
+                        continue
+                    if isinstance(par, ast.Call) and n in par.args + [k.value for k in par.keywords]:
+                        f = par.func
+                        if isinstance(f, ast.Attribute) and f.attr == 'update' and not _is_md_expr(f.value, aliases):
+                            continue    # other.update(matchdict): a read
+                        if isinstance(f, ast.Name) and f.id in ('dict', 'len', 'bool', 'sorted', 'list', 'tuple', 'repr', 'str'):
+                            continue
+                        why.append('passed to %s line %d' % (ast.unparse(f), par.lineno))
+                        continue
+                    if isinstance(par, (ast.Compare, ast.BoolOp, ast.UnaryOp, ast.If, ast.IfExp, ast.While, ast.Assert, ast.FormattedValue,
+                                        ast.JoinedStr)) or (isinstance(par, ast.BinOp) and isinstance(par.op, ast.Mod)):
+                        continue        # tested / compared / formatted
+                    if isinstance(par, ast.Assign) and par.value is n:
+                        bad = [tg for tg in par.targets for el in (tg.elts if isinstance(tg, ast.Tuple) else [tg])
+                               if not isinstance(el, ast.Name) and not (isinstance(el, ast.Subscript)
+                                                                        and isinstance(el.slice, ast.Constant)
+                                                                        and el.slice.value in ('matchdict', 'bfg.routes.matchdict'))]
+                        if bad:
+                            why.append('stored into %s line %d' % (ast.unparse(bad[0]), par.lineno))
+                        continue
+                    gpar = parents.get(id(par))
+                    if isinstance(par, ast.Tuple) and (isinstance(gpar, ast.Assign) or (
+                            isinstance(gpar, ast.BinOp) and isinstance(gpar.op, ast.Mod) and gpar.right is par)):
+                        continue        # tuple assignment (aliases were collected above) / '...' % (.., match, ..)
+                    if isinstance(par, ast.AugAssign) and par.target is n:
+                        why.append('augmented assignment line %d' % par.lineno)
+                        continue
+                    if isinstance(par, ast.Dict):
+                        continue        # {'match': match, 'route': route}: the info dictionary itself
+                    if isinstance(par, ast.Expr):
+                        continue
+                    why.append('%s line %d' % (type(par).__name__, getattr(par, 'lineno', 0)))
+                if why:
+                    out[(rel, qual)] = why
+            visit(tree, '')
+    return out
+
+
 def masked_shape(src, vals):
     """Shape of _compile_route with the string literals that are value facts masked out, so that a
     change of such a literal changes the fact (and the theorems stated over it), not the pin."""
@@ -263,6 +390,17 @@ def facts(src):
                                 'this function' % (k, want, got))
     except Exception as e:
         problems.append('masked shape pins of config/routes.py could not be computed: %r' % e)
+    try:
+        sites = matchdict_sites(src)
+        extra = {k: v for k, v in sites.items() if k not in MATCHDICT_WRITERS}
+        nums['matchdict_single_writer'] = 0 if extra else 1
+        summary['matchdict_writers'] = sorted('%s:%s' % k for k in sites)
+        for (rel, qual), why in sorted(extra.items()):
+            problems.append('the live match dictionary is written or handed on in %s:%s (%s): the model lets only the mapper '
+                            '(matcher closure) and TraversePredicate.__call__ touch it' % (rel, qual, '; '.join(why[:3])))
+    except Exception as e:
+        nums['matchdict_single_writer'] = 0
+        problems.append('match dictionary writers could not be determined: %r' % e)
     coq = F.HEADER
     for k in sorted(vals):
         coq += 'Definition %s : text := %s.  (* %r *)\n' % (k, F.coq_text(vals[k]), vals[k].replace('*)', '* )').replace('(*', '( *'))
